@@ -599,11 +599,29 @@ func genC08(o *out, r *rng, thorough bool) {
 			text = `{"type":"Polygon","coordinates":[[` + strings.Join(ps, ",") + `]]}`
 			fl = docFlags{planar: true}
 		}
+		zig := false
+		if i%97 == 31 || i%97 == 77 {
+			// a zigzag line whose every segment straddles the centre line of its rectangle, so that all
+			// of them stay in the quadtree's ROOT node: 255..258 items in one node (width boundaries of
+			// the compressed format's item count; seeds W13-1 / W16-1)
+			zig = true
+			nseg := r.pick([]int{255, 256, 256, 257, 258})
+			var ps []string
+			for k := 0; k <= nseg; k++ {
+				y := 3
+				if k%2 == 1 {
+					y = -3
+				}
+				ps = append(ps, fmt.Sprintf("[%g,%d]", float64(k)*0.5, y))
+			}
+			text = `{"type":"LineString","coordinates":[` + strings.Join(ps, ",") + `]}`
+			fl = docFlags{planar: true}
+		}
 		np := strings.Count(text, "[")
 		type variant struct{ opts string }
 		var vs []string
 		vs = append(vs, defaultOptsS)
-		if d20 {
+		if d20 || zig {
 			vs = append(vs, optsStr(64, 1, 1, false, false, false, false), optsStr(64, 0, 0, false, false, false, false))
 		}
 		for _, ig := range []int{0, 1, np, np + 1} {
@@ -635,6 +653,11 @@ func genC08(o *out, r *rng, thorough bool) {
 					xid := o.newID("O")
 					o.op("onew %s line 0 0 2 %d %d %d %d", xid, 16*(32*d20k+d20dx), 16*d20dy, 16*(64*d20k+d20dx), 16*(48*d20k+d20dy))
 					x = oref{xid, "LineString"}
+				}
+				if zig && k == 0 {
+					xid := o.newID("O")
+					o.op("onew %s point 0 48", xid) // the line's first vertex
+					x = oref{xid, "Point"}
 				}
 				g = o.newGroup()
 				for _, id := range ids {
